@@ -43,7 +43,7 @@ def plan(tier, include_args=True, include_noreq=False, only=None):
     return out
 
 
-POSTS = {"c07removal": E.post_c07_removal, "c18suffix": E.post_c18_suffix}
+POSTS = {"c07removal": E.post_c07_removal, "c18suffix": E.post_c18_suffix, "c04": E.post_c04}
 
 
 def make_tasks(tier, seed, oracles, layouts=(), layout_depth=2, budget_s=None, post=None, base_layout="space", **kw):
